@@ -39,6 +39,10 @@ impl Prop for C13P {
             Tier::Thorough => vec![(n, n), (1, n), (n, 1), (2, 3), (3, 2)],
         };
         let mut v: Vec<String> = receivers(n, true, if tier == Tier::Thorough { Nest::All } else { Nest::Sample }, &parents).iter().map(|r| r.enc()).collect();
+        // lines of 9 and 17 cells (beyond the block sizes of chunked or unrolled loops)
+        for rd in [Recv::owned(9, 2), Recv::owned(2, 9), Recv::owned(17, 1), Recv::window(11, 3, (1, 0), (10, 2)), Recv::foreign_owned(9, 2), Recv::foreign_window(11, 3, (1, 1), (10, 3))] {
+            v.push(rd.enc());
+        }
         for (c, r) in crate::engine::util::shapes(3) {
             v.push(format!("zst {}x{}", c, r));
             if c > 0 {
@@ -47,6 +51,9 @@ impl Prop for C13P {
         }
         for (c, r) in super::hugezst::shapes() {
             v.push(format!("hugezst {}x{}", c, r));
+        }
+        for (c, r) in [(1usize, 2usize), (2, 1), (2, 2), (3, 2), (2, 3), (3, 3)] {
+            v.push(format!("owning {}x{}", c, r));
         }
         v
     }
@@ -59,6 +66,11 @@ impl Prop for C13P {
                 .filter(|o| matches!(o, super::ops::Op::Swap(..) | super::ops::Op::SwapRows(..) | super::ops::Op::SwapCols(..) | super::ops::Op::RowPairWrite(..) | super::ops::Op::Fill))
                 .collect();
             super::ops::zst_panic_differential(c, r, &ops, ctx);
+            return;
+        }
+        if let Some(dims) = unit.strip_prefix("owning ") {
+            let (c, r) = super::hugezst::parse_shape(dims);
+            run_owning(c, r, ctx);
             return;
         }
         if let Some(dims) = unit.strip_prefix("hugezst ") {
@@ -79,6 +91,7 @@ impl Prop for C13P {
          swap(a,b) for all coordinate pairs in (0..=dim+1)^4 plus huge components, swap_rows / swap_cols / row_pair_mut for all index pairs in (0..=dim+1 + huge)^2, fill. \
          In range: exactly the named cells/rows/columns exchanged (whole parent compared with the model, so cells outside a window are covered), row_pair_mut slices compared by address and order; out of range (or r1==r2 for row_pair_mut): must panic and leave the parent unchanged. \
          Arrays of () with close to usize::MAX cells and their mutable windows: swap between corner cells and row_pair_mut of the first / last rows must succeed (rows of the window's width, in the order asked), any coordinate or row just outside or far outside must panic (only these constant-time primitives are used there). \
+         Cells that own a resource (drop ledger), on owned arrays, windows and both third-party implementors, shapes up to 3x3: every in-range swap / swap_rows / swap_cols and a row_pair_mut exchange must MOVE the elements (same identities at the exchanged positions, all live), and dropping the array afterwards drops each exactly once. \
          After a fill whose Clone panics at any call (caught) the swap primitives must still do exactly their job on the surviving array. Arrays and windows of the zero-sized () must accept and reject exactly the same arguments as arrays of ordinary elements (shapes up to 3x3). A case is (receiver, call, arguments); non-trivial when the receiver is non-empty; distinct by (receiver, call, arguments)."
             .into()
     }
@@ -439,6 +452,127 @@ fn run_huge_zst(c: usize, r: usize, ctx: &mut Ctx) {
                     );
                 }
             }
+        }
+    }
+}
+
+/// The swap primitives on cells that own a resource: elements are moved, never duplicated or dropped.
+fn run_owning(c: usize, r: usize, ctx: &mut Ctx) {
+    use super::recv::{ForeignOwned, ForeignWindow};
+    use crate::engine::ledger::{self, Tracked};
+    use toodee::TooDee;
+    #[derive(Clone, Copy, Debug, Hash, PartialEq, Eq)]
+    enum O {
+        Swap((usize, usize), (usize, usize)),
+        Rows(usize, usize),
+        Cols(usize, usize),
+        Pair(usize, usize),
+    }
+    let mut ops: Vec<O> = Vec::new();
+    for x1 in 0..c {
+        for y1 in 0..r {
+            for x2 in 0..c {
+                for y2 in 0..r {
+                    ops.push(O::Swap((x1, y1), (x2, y2)));
+                }
+            }
+        }
+    }
+    for a in 0..r {
+        for b in 0..r {
+            ops.push(O::Rows(a, b));
+            if a != b {
+                ops.push(O::Pair(a, b));
+            }
+        }
+    }
+    for a in 0..c {
+        for b in 0..c {
+            ops.push(O::Cols(a, b));
+        }
+    }
+    fn run_op<X: TooDeeOpsMut<Tracked>>(x: &mut X, op: &O) {
+        match *op {
+            O::Swap(a, b) => x.swap(a, b),
+            O::Rows(a, b) => x.swap_rows(a, b),
+            O::Cols(a, b) => x.swap_cols(a, b),
+            O::Pair(a, b) => {
+                let (p, q) = x.row_pair_mut(a, b);
+                p.swap_with_slice(q);
+            }
+        }
+    }
+    for op in ops {
+        for kind in 0..4u8 {
+            let name = ["TooDee", "TooDeeViewMut window", "third-party owned", "third-party window"][kind as usize];
+            ctx.case(
+                || format!("{} of Tracked {}x{}: {:?}", name, c, r, op),
+                |cs| {
+                    cs.nontrivial((c, r, kind, op));
+                    cs.outcome("accepted");
+                    let window = kind == 1 || kind == 3;
+                    let (pc, pr, off) = if window { (c + 2, r + 1, (1usize, 1usize)) } else { (c, r, (0, 0)) };
+                    let live0 = ledger::live_count();
+                    let mut p: TooDee<Tracked> = TooDee::from_vec(pc, pr, (0..pc * pr).map(|i| Tracked::new(i as u32)).collect());
+                    let before: Vec<u64> = p.data().iter().map(|e| e.id).collect();
+                    let res = guarded(|| match kind {
+                        0 => run_op(&mut p, &op),
+                        1 => run_op(&mut p.view_mut(off, (off.0 + c, off.1 + r)), &op),
+                        2 => {
+                            let mut f = ForeignOwned(std::mem::take(&mut p));
+                            let r = std::panic::catch_unwind(std::panic::AssertUnwindSafe(|| run_op(&mut f, &op)));
+                            p = f.0;
+                            if let Err(e) = r {
+                                std::panic::resume_unwind(e);
+                            }
+                        }
+                        _ => run_op(&mut ForeignWindow(p.view_mut(off, (off.0 + c, off.1 + r))), &op),
+                    });
+                    if let Err(m) = res {
+                        cs.fail("owning:panics-on-valid", format!("{:?} panicked: {}", op, m));
+                        std::mem::forget(p);
+                        return;
+                    }
+                    // expected identities
+                    let idx = |x: usize, y: usize| (off.1 + y) * pc + off.0 + x;
+                    let mut exp = before.clone();
+                    match op {
+                        O::Swap(a, b) => exp.swap(idx(a.0, a.1), idx(b.0, b.1)),
+                        O::Rows(a, b) | O::Pair(a, b) => {
+                            for x in 0..c {
+                                exp.swap(idx(x, a), idx(x, b));
+                            }
+                        }
+                        O::Cols(a, b) => {
+                            for y in 0..r {
+                                exp.swap(idx(a, y), idx(b, y));
+                            }
+                        }
+                    }
+                    if p.size() != (pc, pr) || p.data().len() != pc * pr {
+                        cs.fail("owning:shape", format!("size {:?} over {} cells afterwards", p.size(), p.data().len()));
+                        std::mem::forget(p);
+                        return;
+                    }
+                    if p.data().iter().any(|e| !e.valid()) {
+                        cs.fail("owning:dead-cell", format!("after {:?} a cell holds an element that was already dropped", op));
+                        std::mem::forget(p);
+                        return;
+                    }
+                    let now: Vec<u64> = p.data().iter().map(|e| e.id).collect();
+                    if now != exp {
+                        cs.fail("owning:wrong-effect", format!("after {:?} the element identities are {:?}, expected {:?}", op, now, exp));
+                    }
+                    drop(p);
+                    let (dd, gd, first) = ledger::problems();
+                    if dd + gd > 0 {
+                        cs.fail("owning:double-drop", format!("{} double / {} garbage drops: {}", dd, gd, first.unwrap_or_default()));
+                    }
+                    if ledger::live_count() != live0 {
+                        cs.fail("owning:leak", format!("{} elements were never dropped", ledger::live_count() - live0));
+                    }
+                },
+            );
         }
     }
 }
